@@ -537,12 +537,15 @@ Definition fallback (e : slice_error) : Prop :=
   end.
 
 (* reference error w against the error l recorded by lax: the same record; the length source
-   of the lax record is the true one or "slice" *)
+   of the lax record is the true one, or "slice", or (known finding F7) the ARP address
+   lengths for a cut-short ARP packet *)
 Definition lax_same (w l : slice_error) : Prop :=
   match w, l with
   | ELen a, ELen b =>
       le_required a = le_required b /\ le_len a = le_len b /\ le_layer a = le_layer b /\
-      le_off a = le_off b /\ (le_src b = le_src a \/ le_src b = LsSlice)
+      le_off a = le_off b /\
+      (le_src b = le_src a \/ le_src b = LsSlice \/
+       (le_layer b = LyArp /\ le_src b = LsArpAddrLengths))
   | EContent a, EContent b => a = b
   | _, _ => False
   end.
